@@ -99,8 +99,18 @@ func validateUnconnectedProcessors(flow *FlowDirection) error {
 
 // detectCircularConnections detects circular connections in the flow graph.
 func detectCircularConnections(flowDir *FlowDirection) error {
-	if flowDir.GetFlowType().IsResponseType() && !flowDir.HasValidRoot() {
-		return nil
+	if flowDir.GetFlowType().IsResponseType() {
+		// After an early response the response walk starts at the answering processor's own node,
+		// not at the root, so a cycle is reachable from any node of a response direction.
+		for processorKey, node := range flowDir.nodes {
+			visitedByCondition := make(map[string]map[string]bool)
+			if !dfsDetectCycles(node, visitedByCondition, processorKey, "") {
+				return fmt.Errorf("circular connection detected - processor '%s'", processorKey)
+			}
+		}
+		if !flowDir.HasValidRoot() {
+			return nil
+		}
 	}
 
 	rootEdges := flowDir.root.node.edges
